@@ -304,6 +304,10 @@ func createShimChannel(ctx context.Context, host, shimPath string, rewriteHost b
 		targetURL := *(r.URL)
 		targetURL.Scheme = "ws"
 		targetURL.Host = host
+		// An opaque URL ("scheme:rest") has no authority component: without this the
+		// host set above would be ignored and the dial would go to the default port
+		// of the local host instead of the backend.
+		targetURL.Opaque = ""
 		if originalHost := r.Host; rewriteHost && originalHost != "" {
 			r.Header.Set("Host", originalHost)
 		}
